@@ -82,7 +82,66 @@ def build(root, repo, work):
     p = subprocess.run(["cargo", "build", "--offline"], cwd=crate, env=dict(env, CARGO_TARGET_DIR=target), capture_output=True, text=True, timeout=3600)
     if p.returncode != 0:
         return None, cfg, "harness build failed (generated code does not compile?): " + p.stderr[-1500:]
+    cfg["_lalrpop"] = lalrpop
     return os.path.join(target, "debug", "gen_native"), cfg, None
+
+
+# ---------------------------------------------------------------------------------------------------------------
+# C11 end to end (bounded): for every pair of regex terminals from a small pool, lalrpop must report
+# "ambiguity detected" exactly when some string over the alphabet (up to max_len) is matched by both.
+# ---------------------------------------------------------------------------------------------------------------
+AMBIG_GRAMMAR = """grammar;
+pub S: () = { A => (), B => () };
+A: () = { r#"%s"# => () };
+B: () = { r#"%s"# => () };
+"""
+
+
+def _strings(alpha, max_len):
+    out = [""]
+    frontier = [""]
+    for _ in range(max_len):
+        frontier = [s + c for s in frontier for c in alpha]
+        out += frontier
+    return out
+
+
+def ambig_pairs(cfg):
+    import re as _re
+    a = cfg["ambig"]
+    pool = a["pool"]
+    strs = [s for s in _strings(a["alphabet"], a["max_len"]) if s]
+    lang = [set(s for s in strs if _re.fullmatch(p, s)) for p in pool]
+    for i in range(len(pool)):
+        for j in range(i + 1, len(pool)):
+            common = sorted(lang[i] & lang[j], key=lambda s: (len(s), s))
+            yield i, j, pool[i], pool[j], (common[0] if common else None)
+
+
+def run_ambig(root, repo, cfg, lalrpop, work, only=None):
+    """-> (number of grammars run, list of failure dicts)"""
+    gdir = os.path.join(work, "ambig")
+    os.makedirs(gdir, exist_ok=True)
+    env = dict(os.environ)
+    env.pop("LALRPOP_LANE_TABLE", None)
+    n, fails = 0, []
+    for (i, j, p1, p2, witness) in ambig_pairs(cfg):
+        if only is not None and only != (i, j):
+            continue
+        src = os.path.join(gdir, "amb_%d_%d.lalrpop" % (i, j))
+        open(src, "w").write(AMBIG_GRAMMAR % (p1, p2))
+        q = subprocess.run([lalrpop, "--force", "--level", "quiet", src], cwd=gdir, env=env, capture_output=True, text=True, timeout=120)
+        out = q.stdout + q.stderr
+        n += 1
+        reported = "ambiguity detected" in out
+        if q.returncode != 0 and not reported:
+            fails.append(dict(pair=(i, j), msg="terminals r\"%s\" and r\"%s\": lalrpop failed with something other than an ambiguity report: %s" % (p1, p2, out[-300:])))
+        elif witness is not None and not reported:
+            fails.append(dict(pair=(i, j), msg="terminals r\"%s\" and r\"%s\" (equal precedence) both match %r but the grammar was accepted" % (p1, p2, witness)))
+        elif witness is None and reported:
+            fails.append(dict(pair=(i, j), msg="terminals r\"%s\" and r\"%s\" match no common string (all strings up to length %d over %s) but lalrpop reported: %s" % (
+                p1, p2, cfg["ambig"]["max_len"], "".join(cfg["ambig"]["alphabet"]), out.strip()[-200:])))
+    return n, fails
 
 
 def run_gen_unit(root, repo, us, prop, tier, seed, work):
@@ -97,7 +156,7 @@ def run_gen_unit(root, repo, us, prop, tier, seed, work):
     except subprocess.TimeoutExpired:
         r["reason"] = "build timed out"
         return r
-    r["cfg"] = cfg
+    r["cfg"] = {k: v for k, v in cfg.items() if k != "_lalrpop"}
     if err:
         r["reason"] = err
         r["wall_s"] = time.time() - t0
@@ -133,8 +192,17 @@ def run_gen_unit(root, repo, us, prop, tier, seed, work):
             r["status"] = "fail"
         r["wall_s"] = time.time() - t0
         return r
-    r["discharged"] = n - len(fails)
-    r["status"] = "fail" if fails else "pass"
+    # C11 end to end
+    an, afails = run_ambig(root, repo, cfg, cfg["_lalrpop"], work)
+    for af in afails:
+        r["failed"].append(dict(id="native/gen:ambig_%d_%d:C11" % af["pair"], function="lexer ambiguity check", message=af["msg"][:600], clause="",
+                                tags=["C11"], output=af["msg"], counterexample=af["msg"], replay_gen=dict(arg="ambig:%d:%d" % af["pair"])))
+    n += an
+    r["evaluations"] = n
+    r["distinct_nontrivial"] = n
+    r["obligations"] = n
+    r["discharged"] = n - len(fails) - len(afails)
+    r["status"] = "fail" if (fails or afails) else "pass"
     r["samples"] = [dict(obligation=l, ms=0) for l in out.strip().splitlines()[-3:]]
     r["wall_s"] = time.time() - t0
     return r
@@ -147,6 +215,16 @@ def replay(root, repo, d):
         if err:
             print("replay could not be built: " + err)
             return 2
+        if d["replay_gen"]["arg"].startswith("ambig:"):
+            _, i, j = d["replay_gen"]["arg"].split(":")
+            an, afails = run_ambig(root, repo, cfg, cfg["_lalrpop"], work, only=(int(i), int(j)))
+            for af in afails:
+                print("FAILING-INPUT: " + af["msg"])
+            if afails:
+                print("REPLAY: the failing input reproduces on the real code")
+                return 1
+            print("replay ok: verdict as expected")
+            return 0
         args = d["replay_gen"]["arg"].split()
         p = subprocess.run([exe, "replay"] + args, capture_output=True, text=True, timeout=300)
         print(p.stdout.strip())
